@@ -8,6 +8,7 @@ Tie: translator translate/gen_rules.py (rule sets, regexp classification), corre
 Search (real code only):
   `cpython-ast`    canon(parse(s)) == canon(ast.parse(s)) for grammar-derived sentences, exact on what both accept;
                    every derived sentence must be accepted by the engine
+  `history`        one SyntaxParser instance over a sequence of texts (indent units, rejects in between) == a fresh instance per text
   `mutated`        mutated sentences are accepted or rejected with Errors.Syntax naming an input token and an existing line
 """
 from __future__ import annotations
@@ -86,7 +87,7 @@ class PyWorld:
 		for tight in (self.rng.choice([0.0, 0.5, 0.9]), 0.0):
 			text = gramlib.render_tokens(tokens, self.rng, tight)
 			try:
-				got = [t.string for t in self.tokenizer.parse(text)]
+				got = [t.string for t in gramlib.real_tokens(self.tokenizer, text)]
 			except Exception:  # noqa: BLE001
 				continue
 			if got == tokens:
@@ -148,7 +149,8 @@ def gen_sentences(world: PyWorld, n: int, max_tokens: int, max_paren: int, keep_
 	give back (none on the pinned tree — a tokenizer regression shows up there, and the search judges the text itself)."""
 	out = []
 	attempts = 0
-	while len(out) < n and attempts < n * 6:
+	dl = gramlib.Deadline(60 + n * 0.05)
+	while len(out) < n and attempts < n * 6 and not dl.expired():
 		attempts += 1
 		level = 'expr' if world.rng.random() < 0.45 else 'stmt'
 		toks = world.sentence(level, world.rng.choice([0, 0, 1, 1, 2]))
@@ -167,7 +169,7 @@ def gen_sentences(world: PyWorld, n: int, max_tokens: int, max_paren: int, keep_
 
 def engine_case(world: PyWorld, desc: dict[str, Any], text: str) -> tuple[dict[str, Any], list[str], list[str]] | None:
 	try:
-		tokens = world.tokenizer.parse(text)
+		tokens = gramlib.real_tokens(world.tokenizer, text)
 	except Exception:  # noqa: BLE001 - the tokenizer's own failures belong to C13
 		return None
 	kind, payload = gramlib.real_parse(world.rules, gramlib.FixedTokenizer(tokens), text)
@@ -196,11 +198,22 @@ def stream_engine_py(ctx: Ctx) -> Stream:
 	world = PyWorld(rng)
 	cases = corpus_cases(world)
 	sentences = gen_sentences(world, ctx.scale(170, 2000), ctx.scale(70, 110), 3)
+	dl = gramlib.Deadline(ctx.scale(90, 600))
+	slow = [0]
+
+	def over() -> bool:
+		return dl.expired() or slow[0] >= 6
+
 	for level, toks, text in sentences:
+		if over():
+			break
 		c = engine_case(world, {'kind': f'sentence-{level}'}, text)
 		if c:
 			cases.append(c)
+			slow[0] += c[0]['outcome'] == 'budget-exceeded'
 	for level, toks, text in sentences[:ctx.scale(130, 1600)]:
+		if over():
+			break
 		for _ in range(2):
 			mtoks, mk = gramlib.mutate_tokens(toks, rng, world.vocabulary)
 			if rng.random() < 0.25:
@@ -365,7 +378,7 @@ def stream_summary(ctx: Ctx) -> Stream:
 	texts += ['a.b.c\n', 'a.b.c', '', 'x = 1 +\n2', 'if a:\n\tb\n\n\nc = "q\'s"\n', "s = 'it\\'s'\nt = \"d\\\"q\"\n", 'a\n\n\n\nb', 'f(a,\n  b)\n', "x = 'a\\\\'\n", 'def f() -> None:\n\treturn\n']
 	for text in texts:
 		try:
-			tokens = world.tokenizer.parse(text)
+			tokens = gramlib.real_tokens(world.tokenizer, text)
 		except Exception:  # noqa: BLE001
 			continue
 		if not tokens:
@@ -376,7 +389,8 @@ def stream_summary(ctx: Ctx) -> Stream:
 		for steps in idx:
 			ops.append(f'summary\t{hx(text)}\t{gramlib.toks_field(tokens, world.regexps)}\t{steps}')
 			try:
-				real.append('ok ' + hx(ErrorCollector(text, tokens, steps).summary()))
+				with gramlib.budget(gramlib.CALL_BUDGET_S):
+					real.append('ok ' + hx(ErrorCollector(text, tokens, steps).summary()))
 			except Exception as e:  # noqa: BLE001
 				real.append(exc_enum(e))
 		cases.append(({'tokens': len(tokens), 'eof': sum(1 for t in tokens if t.source_map.begin_line < 0)}, ops, real))
@@ -437,14 +451,20 @@ def search_cpython(ctx: Ctx) -> SearchResult:
 	seen: set[str] = set()
 	# defect-candidate witnesses and past findings first
 	purpose = walrus_ternary_sentences(world, ctx.scale(6, 40))
+	dl = gramlib.Deadline(ctx.scale(120, 900))
+	slow = 0
 	for level, toks, text in purpose + gen_sentences(world, ctx.scale(700, 5000), ctx.scale(70, 120), 3, keep_inexact=True):
+		if dl.expired() or slow >= 6:
+			res.note = f'stopped early: wall budget {dl.seconds} s over or {slow} calls exceeded their budget'
+			break
 		res.cases += 1
 		if text not in seen:
 			seen.add(text)
 		kind, payload = gramlib.real_parse(world.rules, world.tokenizer, text)
+		slow += kind == 'budget-exceeded'
 		if kind != 'ok':
 			hist[f'{level}:engine-{kind}'] += 1
-			res.findings.append(Finding(key=f'derivable-rejected:{reject_key(toks, world.rules)}',
+			res.findings.append(Finding(key='does-not-terminate:budget-exceeded' if kind == 'budget-exceeded' else f'derivable-rejected:{reject_key(toks, world.rules)}',
 				what=f'a sentence derived from py_gram.lark is not accepted by the engine ({kind}): {text!r}', replay={'text': text, 'derivation': toks, 'outcome': kind, 'message': payload}))
 			continue
 		leaf = gramlib.bad_leaf(payload, world.grammar)
@@ -502,11 +522,16 @@ def search_mutated(ctx: Ctx) -> SearchResult:
 			mtoks, mk = gramlib.mutate_tokens(toks, rng, world.vocabulary)
 			if paren_depth(mtoks) <= 4:
 				texts.append((mk, gramlib.render_tokens(mtoks, rng, rng.choice([0.0, 0.5]))))
+	dl = gramlib.Deadline(ctx.scale(120, 900))
+	slow = 0
 	for mk, text in texts:
+		if dl.expired() or slow >= 6:
+			res.note = f'stopped early: wall budget {dl.seconds} s over or {slow} calls exceeded their budget'
+			break
 		res.cases += 1
 		seen.add(text)
 		try:
-			tokens = world.tokenizer.parse(text)
+			tokens = gramlib.real_tokens(world.tokenizer, text)
 		except Exception as e:  # noqa: BLE001 - SyntaxParser.parse runs the tokenizer: its exception escapes the parse call
 			kind = exc_enum(e)
 			key = f'escaped:tokenizer-{kind}' + (':trailing-minus' if text.rstrip(' \t').endswith('-') else '')
@@ -552,14 +577,83 @@ def search_mutated(ctx: Ctx) -> SearchResult:
 				hist[f'rejected:{key}'] += 1
 				res.findings.append(Finding(key=key, what=f'Errors.Syntax summary is wrong: {bad}; text {text!r}', replay={'text': text, 'summary': payload, 'mutation': mk}))
 		else:
+			slow += kind == 'budget-exceeded'
 			hist[f'escaped:{kind}'] += 1
-			res.findings.append(Finding(key=f'escaped:{kind}', what=f'{kind} instead of Errors.Syntax for {text!r}', replay={'text': text, 'mutation': mk}))
+			res.findings.append(Finding(key='does-not-terminate:budget-exceeded' if kind == 'budget-exceeded' else f'escaped:{kind}', what=f'{kind} instead of Errors.Syntax for {text!r}', replay={'text': text, 'mutation': mk}))
 	res.distinct = len(seen)
 	res.histogram = dict(hist)
 	return res
 
 
 # ---------------------------------------------------------------------------------------------
+
+
+def search_history(ctx: Ctx) -> SearchResult:
+	"""ONE SyntaxParser (and its Tokenizer) across a sequence of texts — programs indented with tabs, 4 and 2 blanks, rejected texts
+	with unbalanced brackets, long and short rejects in between — against a fresh instance on each text (bin/ast_check.py keeps one
+	instance; the models treat parser and tokenizer as functions of the text)."""
+	from data.syntax.py_rules import py_rules
+	from rogw.tranp.errors import Errors
+	from rogw.tranp.implements.syntax.tranp.syntax import SyntaxParser
+	rng = ctx.sub_rng('history')
+	world = PyWorld(rng)
+	res = SearchResult('a shared SyntaxParser instance gives on every text of a sequence what a fresh instance gives')
+	hist: Counter[str] = Counter()
+
+	def run(p: Any, text: str) -> tuple[str, Any]:
+		try:
+			with gramlib.budget(gramlib.CALL_BUDGET_S):
+				return 'ok', p.parse(text, 'entry').simplify()
+		except gramlib.BudgetExceeded:
+			return 'budget-exceeded', None
+		except Errors.Syntax as e:
+			return 'Errors.Syntax', str(e)
+		except Exception as e:  # noqa: BLE001
+			return exc_enum(e), None
+
+	rejects = ['x = (a', 'f ( a , b', '[ 1 , 2', 'x = { "k" : ( 1', 'a +', 'x = f ( a , b , c ) + d +', 'if a :\n\tb = ( 1\n']
+	blocks = [s for s in gen_sentences(world, ctx.scale(60, 400), 50, 3) if '\\INDENT' in s[1]]
+	flat = [s for s in gen_sentences(world, ctx.scale(40, 250), 30, 3) if '\\INDENT' not in s[1]]
+	# the first sequence is the witness of the repaired stale error position (monitor.peek is reset per parse since the fix): it must agree
+	sequences: list[list[str]] = [['x = f ( a , b , c ) + d +', 'x = (a', 'a'], ['if a :\n    b\n', 'if a :\n\tb\n', 'x = (a', 'a'], ['x = (a', 'a', 'if a :\n  b\n', 'if a :\n        b\n']]
+	for _ in range(ctx.scale(25, 200)):
+		seq: list[str] = []
+		for _ in range(rng.randint(3, 7)):
+			r = rng.random()
+			if r < 0.45 and blocks:
+				_, toks, _ = rng.choice(blocks)
+				seq.append(gramlib.render_tokens(toks, rng, 0.0, indent=rng.choice(['\t', '    ', '  ', '        '])))
+			elif r < 0.7 and flat:
+				seq.append(rng.choice(flat)[2])
+			elif r < 0.9:
+				seq.append(rng.choice(rejects))
+			elif flat:
+				mt, _ = gramlib.mutate_tokens(rng.choice(flat)[1], rng, world.vocabulary)
+				seq.append(gramlib.render_tokens(mt))
+		sequences.append(seq)
+	dl = gramlib.Deadline(ctx.scale(90, 600))
+	seen: set[str] = set()
+	for seq in sequences:
+		if dl.expired():
+			res.note = f'stopped early: wall budget {dl.seconds} s over'
+			break
+		res.cases += 1
+		seen.add('\x00'.join(seq))
+		shared = SyntaxParser(py_rules())
+		for i, text in enumerate(seq):
+			a = run(shared, text)
+			b = run(SyntaxParser(py_rules()), text)
+			if a == b:
+				hist[f'same:{b[0]}'] += 1
+				continue
+			key = 'history:result-differs' + (':error-summary' if a[0] == b[0] == 'Errors.Syntax' else '')
+			hist[key] += 1
+			res.findings.append(Finding(key=key, what=f'text #{i + 1} of a sequence parsed by ONE instance gives {a[0]} / {str(a[1])[:120]!r}, a fresh instance {b[0]} / {str(b[1])[:120]!r}; text {text!r}',
+				replay={'sequence': seq[:i + 1], 'shared': [a[0], str(a[1])[:600]], 'fresh': [b[0], str(b[1])[:600]]}))
+			break
+	res.distinct = len(seen)
+	res.histogram = dict(hist)
+	return res
 
 
 def guarded(kind: str, name: str, fn, ctx: Ctx):
@@ -599,6 +693,7 @@ STATEMENTS = {
 	'keywords_excluded': 'a token whose string is a keyword never matches a regexp terminal, whatever the regexp says',
 	'reserved_words_py': 'the string terminals in py_rules().keywords are exactly the string terminals of py_gram.lark as read independently from the text; the identifier-shaped ones are the 17 listed reserved words',
 	'reserved_words_gram': 'gram_rules().keywords is the seven punctuation terminals followed by the five regexps of gram.lark (independent reading)',
+	'parse_history_free': 'remark-level: the model has no state between calls — the result for a text after any history of other texts is the result for that text alone (tied by the translator scan of instance attributes in syntax.py / tokenizer.py and by the history search)',
 	'T3_yield': 'the named-terminal leaves of a successful match, in order, are exactly the consumed tokens that were matched by named terminal rules; the consumed tokens are exactly the span, in source order',
 	'T4_chain': 'a match of a ladder-shaped pattern (N op)* N yields the flat chain n_k o_k … o_1 n_0 in source order, each item a successful match of N resp. op laid end to end over the consumed span',
 	'T4_ladders_py': 'comp_or, comp_and, comp, calc_sum, calc_mul of the generated py table are exactly ladder rules (kernel-decided), chained level by level',
@@ -615,7 +710,7 @@ def run(ctx: Ctx) -> int:
 	with ctx.timed('correspondence'):
 		streams = [guarded('stream', 'engine-py', stream_engine_py, ctx), guarded('stream', 'engine-random', stream_engine_random, ctx), guarded('stream', 'engine-summary', stream_summary, ctx)]
 	with ctx.timed('search'):
-		searches = [guarded('search', 'cpython-ast', search_cpython, ctx), guarded('search', 'mutated', search_mutated, ctx)]
+		searches = [guarded('search', 'cpython-ast', search_cpython, ctx), guarded('search', 'mutated', search_mutated, ctx), guarded('search', 'history', search_history, ctx)]
 	return common.finish(ctx, proof, streams, searches, translate_ok=ok, translate_msg=msg,
 		statements=STATEMENTS,
 		partial={
@@ -640,7 +735,7 @@ def replay(ctx: Ctx, path: str) -> int:
 	text = (rec.get('input') or {}).get('text')
 	if rec.get('kind') == 'failing-input' and text is not None:
 		world = PyWorld(random.Random(0))
-		tokens = world.tokenizer.parse(text)
+		tokens = gramlib.real_tokens(world.tokenizer, text)
 		kind, payload = gramlib.real_parse(world.rules, gramlib.FixedTokenizer(tokens), text)
 		print(f'replay: real outcome = {kind}')
 		print(payload if isinstance(payload, str) else repr(payload)[:2000])
